@@ -23,7 +23,11 @@ func concCheck(c *report.Check, prop string, kv bool) {
 	if c.Thorough() {
 		bound = 3
 	}
-	sum := e2.Drive(c, []e2.Plan{{Scns: scns, Bound: bound, NShards: 8}}, 0)
+	ns := 8
+	if c.Thorough() {
+		ns = 48
+	}
+	sum := e2.Drive(c, []e2.Plan{{Scns: scns, Bound: bound, NShards: ns}}, 0)
 	for _, v := range sum.Violations {
 		cls := v.Violation
 		if i := strings.Index(cls, " ("); i > 0 {
